@@ -11,6 +11,7 @@ from harness.translate import c08_gen as G
 
 PROP_ID = "C08"
 COQ_PROPS = "theories/Props/C08.v"
+COQ_EXTRA = ["gen/C08_registry_gen.v"]
 EXTRACT = ("theories/Extract/ExC08.v", "c08_driver.ml")
 TRUSTED = [
     "modelled by hand (Spec/Spec.v): serialize/deserialize/calc_size of SerializablePrimitive (ints; floats as raw bit "
@@ -149,6 +150,8 @@ def check_property(node, e, pod, v, trail: bytes, bad=False):
     Returns None or a violation dict with a stable `class`."""
     obj = S.build(node)
     base = {"spec": S.sexp(node), "e": e, "pod": int(pod), "trail": S.hb(trail)}
+    if node.x.get("regname"):
+        base["registry"] = node.x["regname"]
     try:
         base["value"] = S.to_sx(node, pod, v)
     except S.Shape:
@@ -287,7 +290,7 @@ def fix_tags(node, e, v):
 
 def value_cases(kind, node, ctx, rng):
     """yields (e, pod, value, bad?)"""
-    nvals = 2 if kind == "exhaustive" else ctx.pick(2, 3)
+    nvals = 2 if kind == "exhaustive" else (ctx.pick(4, 25) if kind == "registry" else ctx.pick(2, 3))
     for pod in (False, True):
         vals = []
         for _ in range(nvals):
@@ -317,18 +320,73 @@ def mutate(rng, b: bytes):
     return out
 
 
-def correspond(ctx):
-    res = CorrResult(
+def _engine_result(ctx):
+    return CorrResult(
         suite="combinator engine: real serialization.py classes vs extracted Coq interpreters",
         rule="spec trees: corpus + every spec of depth<=2 over a 27-leaf alphabet (exhaustive stream) + seeded random trees of the "
              "combinator grammar (depth<=%d; mostly wf, a 'sloppy' stream ignoring the tail-position discipline, a stage-2 stream with "
-             "IfPresent/LengthSwitch/EnumSwitch/TypedBytesTerminated); per tree and mode values of the derived domain plus one value "
-             "violating a single length/range limit; each in {<,>} x {pod, non-pod}.  Compared: serialized bytes or error, calc_size, "
+             "IfPresent/LengthSwitch/EnumSwitch; wave-2 constructors: OptionalFlagged inside Templates, BitField, Dataclass, TupleCoord "
+             "family, opaque quantized/fixed-point adapters, TypedBytesTerminated); per tree and mode values of the derived domain plus one "
+             "value violating a single length/range limit; each in {<,>} x {pod, non-pod}.  Compared: serialized bytes or error, calc_size, "
              "static classification (wf/delimited/min_size), domain membership (model domb accepts every generated domain value of a wf "
              "spec and rejects every violating value), decoded value + bytes left on: the exact encoding, encoding + trailing bytes, "
              "truncated / bit-flipped / random bytes.  The impl-level oracle checks the property clauses on the real classes for every "
              "wf spec.  non-trivial = distinct (spec, e, mode, value-or-bytes) evaluation on a composite spec (tree size > 1)"
              % ctx.pick(3, 5))
+
+
+def registry_stream(ctx):
+    from harness.translate import c08_registry as R
+    trees, skipped = _registry(ctx)
+    for name, kind, n in trees:
+        n.x["regname"] = name
+        yield "registry", n
+
+
+_REG = {}
+
+
+def _registry(ctx=None):
+    from harness.translate import c08_registry as R
+    if "t" not in _REG:
+        _REG["t"] = R.translate_all()
+    return _REG["t"]
+
+
+def generate(ctx):
+    """(G) translator: the registered spec trees of the live code as Spec terms + one wf obligation per tree"""
+    from harness.translate import c08_registry as R
+    from harness.common.framework import COQ
+    trees, skipped = _registry(ctx)
+    obls = R.write_gen(os.path.join(COQ, "gen", "C08_registry_gen.v"), trees, skipped)
+    inside = sum(1 for _, _, n in trees if S.wf(n))
+    ctx.notes.append("registry: %d spec trees found, %d translated (%d inside the proved fragment, %d outside), %d not translated"
+                     % (len(trees) + len(skipped), len(trees), inside, len(trees) - inside, len(skipped)))
+    for name, kind, why in skipped:
+        ctx.notes.append("registry: NOT translated %s [%s]: %s" % (name, kind, why))
+    return obls
+
+
+def correspond(ctx):
+    r1 = _run_suite(ctx, _engine_result(ctx), spec_stream(ctx), True)
+    trees, skipped = _registry(ctx)
+    r2 = CorrResult(
+        suite="registered spec trees: the live SUBFIELD_SERIALIZERS registry and templates.py module-level specs vs the model",
+        rule="every spec tree reachable from se.SUBFIELD_SERIALIZERS (TEMPLATE, TEMPLATES entries, ADAPTER; enum/flag instance serializers "
+             "over the integer wire type of their message-template variable) and every module-level spec object of templates.py, "
+             "translated by harness/translate/c08_registry.py (fail-closed; untranslatable trees are listed in the notes); the REAL "
+             "registered objects are run against the model on values of their derived domains (decoded from random wire ints for "
+             "adapters), violating values, trailing / truncated / bit-flipped / random bytes, in {<,>} x {pod, non-pod}; the oracle "
+             "checks the property clauses on every tree inside the proved fragment")
+    r2 = _run_suite(ctx, r2, registry_stream(ctx), False)
+    inside = sum(1 for _, _, n in trees if S.wf(n))
+    r2.distribution.update({"registry:trees-found": len(trees) + len(skipped), "registry:translated": len(trees),
+                            "registry:inside-proved-fragment(wf)": inside, "registry:translated-but-not-wf": len(trees) - inside,
+                            "registry:not-translated": len(skipped)})
+    return [r1, r2]
+
+
+def _run_suite(ctx, res, stream, with_probes):
     rng = ctx.rng
     lines, expect = [], []       # expect[i] = (what, impl_observation, case-info)
     de_lines = []                # (index of the ser line it depends on | None, line, expectation): second driver pass
@@ -342,13 +400,13 @@ def correspond(ctx):
         dist[k] = dist.get(k, 0) + d
 
     # utf-8 validity: exhaustive 1- and 2-byte strings + structured 3/4-byte sequences
-    utf = [bytes([a]) for a in range(256)] + [bytes([a, b]) for a in range(0xBC, 0x100) for b in range(0x78, 0xC8)]
-    for a in (0xE0, 0xE1, 0xEC, 0xED, 0xEE, 0xEF):
+    utf = [] if not with_probes else [bytes([a]) for a in range(256)] + [bytes([a, b]) for a in range(0xBC, 0x100) for b in range(0x78, 0xC8)]
+    for a in ((0xE0, 0xE1, 0xEC, 0xED, 0xEE, 0xEF) if with_probes else ()):
         for b in (0x7F, 0x80, 0x9F, 0xA0, 0xBF, 0xC0):
             for c in (0x7F, 0x80, 0xBF, 0xC0):
                 utf.append(bytes([a, b, c]))
                 utf.append(bytes([a, b, c, 0x41]))
-    for a in (0xF0, 0xF1, 0xF3, 0xF4, 0xF5):
+    for a in ((0xF0, 0xF1, 0xF3, 0xF4, 0xF5) if with_probes else ()):
         for b in (0x7F, 0x80, 0x8F, 0x90, 0xBF, 0xC0):
             for c in (0x80, 0xBF, 0xC0):
                 for d in (0x7F, 0x80, 0xBF, 0xC0):
@@ -365,7 +423,7 @@ def correspond(ctx):
     bump("utf8-probes", len(utf))
 
     # corpus: explicit regression cases (spec, value, endianness, mode, trailing bytes) run first
-    for c in corpus_cases():
+    for c in (corpus_cases() if with_probes else []):
         if "value" not in c:
             continue
         try:
@@ -381,9 +439,9 @@ def correspond(ctx):
         lines.append(f"ser {c['e']} {c['spec']} {c['value']}")
         expect.append(("ser", "ERR" if isinstance(b, str) else "OK " + S.hb(b), c))
 
-    for kind, node in spec_stream(ctx):
+    for kind, node in stream:
         sx = S.sexp(node)
-        if sx in seen_specs:
+        if sx in seen_specs and kind != "registry":
             continue
         seen_specs.add(sx)
         n_specs += 1
@@ -420,6 +478,8 @@ def correspond(ctx):
                     continue
                 vsx = None
             info = {"spec": sx, "e": e, "pod": int(pod), "value": vsx}
+            if kind == "registry":
+                info["registry"] = node.x.get("regname")
             b = impl_ser(obj, v, e)
             ser_idx = None
             if vsx is not None and "nan" not in vsx:
@@ -501,7 +561,7 @@ def correspond(ctx):
     res.distribution = dict(sorted(dist.items()))
     res.exhaustive = False
     res.samples = [{"op": e[0], "case": e[2], "impl": e[1][:120], "model": m[:120]}
-                   for e, m in list(zip(expect, model))[len(utf) + 50:len(utf) + 53] + list(zip(expect, model))[-3:]]
+                   for e, m in list(zip(expect, model))[len(utf) + 50:len(utf) + 53] + list(zip(expect, model))[-3:]][:6]
     if res.impl_violations:
         res.impl_violations.sort(key=lambda v: len(str(v.get("spec"))) + len(str(v.get("value"))))
         res.impl_violations = [shrink(v) for v in res.impl_violations[:3]] + res.impl_violations[3:50]
@@ -510,8 +570,17 @@ def correspond(ctx):
 
 # ---------------------------------------------------------------- search / shrink / replay
 
+def _node_of_case(case):
+    if case.get("registry"):
+        for name, kind, n in _registry()[0]:
+            if name == case["registry"] and S.sexp(n) == case["spec"]:
+                n.x["regname"] = name
+                return n
+    return S.node_of_sx(S.parse_sx(case["spec"]))
+
+
 def _case_violation(case):
-    node = S.node_of_sx(S.parse_sx(case["spec"]))
+    node = _node_of_case(case)
     pod = bool(case["pod"])
     if not str(case["value"]).startswith("("):
         return None
@@ -523,7 +592,7 @@ def _case_violation(case):
 
 def shrink(viol):
     """try the same clause on sub-specs with the corresponding sub-values"""
-    if viol.get("class") == "limit-not-rejected":
+    if viol.get("class") == "limit-not-rejected" or viol.get("registry"):
         return viol         # which part of the value violates a limit is not known here: keep the case as found
     try:
         node = S.node_of_sx(S.parse_sx(viol["spec"]))
